@@ -590,9 +590,41 @@ class C15(Base):
 
     E3_SHARE = {"quick": 0.08, "thorough": 0.3}
 
+    CROWD_SHARE = {"quick": 0.04, "thorough": 0.04}
+
+    def crowd(self, rng, tier):
+        """One observed schedule, stepped a little, then a crowd of 130-300
+        tiny schedules of the same family each constructed and stepped once,
+        then the observed one carries on (many co-tenants at once)."""
+        nmax, rfmax = self.SIZES[tier]
+        fam = rng.choice((
+            ("Revolve", "DiskRevolve", "PeriodicDiskRevolve", "HRevolve"),
+            ("MultistageMax", "MultistageRev"), ("MixedRAM", "MixedDISK"),
+            ("TwoLevel",), ("SingleMemory",), ("SingleDiskCopy",
+                                               "SingleDiskMove"),
+            ("None",)))
+        cfg = draw_cfg(rng, rng.choice(fam), min(nmax, 24), min(rfmax, 20))
+        if cfg["N"] < 3:
+            cfg["N"] = rng.randint(3, 12)
+        passes = draw_passes(rng, cfg, 2)
+        ops = [["new", 0, cfg, passes, "every"]]
+        ops += [["next", 0]] * rng.randint(1, 3)
+        k = rng.choice((130, 140, 200, 300))
+        keep = rng.random() < 0.5
+        for j in range(1, k + 1):
+            c = draw_cfg(rng, rng.choice(fam), 4, 4)
+            ops.append(["new", j, c, 1, "every"])
+            ops.append(["next", j])
+            if not keep:
+                ops.append(["del", j])
+        ops += [["drain", 0], ["over", 0]]
+        return ListDriver(ops)
+
     def plan(self, rng, tier, idx):
         nmax, rfmax = self.SIZES[tier]
         lo, hi = self.SLOTS[tier]
+        if rng.random() < self.CROWD_SHARE[tier]:
+            return self.crowd(rng, tier)
         share = float(os.environ.get("VERIF_E3_SHARE") or self.E3_SHARE[tier])
         e3 = rng.random() < share
         nslots = rng.randint(lo, hi if (rng.random() < 0.2 and not e3)
@@ -641,9 +673,15 @@ class C15(Base):
                     cfg["N"] = max(1, min(pivot_n + rng.choice((0, 0, 1, 7)),
                                           rfmax))
                     cfg["p"]["s"] = 1 + pivot_s % 3
-                elif u < 0.65:
+                elif u < 0.55:
                     # same cost vector, different sizes and unit counts
                     cfg["p"].update(pivot_costs)
+                elif u < 0.8:
+                    # exact twins across the family: same size, RAM units
+                    # and cost vector, another class
+                    cfg["N"] = max(1, min(pivot_n, rfmax))
+                    cfg["p"].update(pivot_costs)
+                    cfg["p"]["s"] = 1 + pivot_s % 3
             slots.append((cfg, draw_passes(rng, cfg, 2), "every"))
         if e3:
             # engine E3: the same tasks, pre-empted at line granularity
@@ -675,9 +713,14 @@ class C15(Base):
         if self.helper is None:
             return
         memo = {}
+        crowd = len(w.all_slots()) > 100
+        if crowd:
+            w.probe("c15_crowd_worlds")
         for s in w.all_slots():
             if s.how == "construct_failed":
                 continue
+            if crowd and isinstance(s.sid, int) and s.sid > 3:
+                continue        # crowd members: a few are baselined
             key = json.dumps([s.cfg, s.passes_wanted], sort_keys=True)
             if key not in memo:
                 res = self.helper.ask(
